@@ -380,6 +380,42 @@ func checkC16(c C16Case) *Violation {
 				return vio("user-chord-tones", "chord %d of the piece, %q, sounds %v above the root; its definition (parents first, then own attributes) gives %v%s", k, u, sortedInts(got), sortedInts(want), ctx)
 			}
 		}
+	case "override-root":
+		// the root of the built-in forest redefined by its long name, keeping its empty display symbol (allowed:
+		// "except major triad"): the last definition wins, and everything that extends it inherits the new notes
+		d := Dict{ChordFiles: [][]UChord{{{Name: "MajorTriad", Display: "", Attrs: []string{"Perfect1", "Major3", "Perfect5", "Perfect8"}}}}}
+		files, args := d.filesAndArgs()
+		seq := []string{"", "MajorTriad", "7", "maj7", "m", "sus4"}
+		want := [][]int{{0, 4, 7, 12}, {0, 4, 7, 12}, {0, 4, 7, 10, 12}, {0, 4, 7, 11, 12}, {0, 3, 7}, {0, 5, 7}}
+		var doc strings.Builder
+		for _, u := range seq {
+			doc.WriteString(oneChordDoc(u))
+		}
+		res := Run{Argv: append([]string{"write"}, args...), Stdin: doc.String(), Files: files}.Exec()
+		if v := cleanOutcome(res); v != nil {
+			return v
+		}
+		ctx := fmt.Sprintf("\nargs %v\npiece plays %q\n%s", args, seq, dumpFiles(files))
+		if res.Exit != 0 {
+			return vio("user-chord-refused", "a dictionary that redefines MajorTriad (display \"\") is refused: %s%s", firstLines(res.Stderr, 2), ctx)
+		}
+		_, song, err := decode(res.Stdout)
+		if err != nil || len(song.Tracks) != 1 {
+			return vio("user-output", "%v%s", err, ctx)
+		}
+		groups := noteGroups(song.Tracks[0])
+		if len(groups) != len(seq) {
+			return vio("user-output", "%d chords written, %d sounded%s", len(seq), len(groups), ctx)
+		}
+		for k := range seq {
+			var got []int
+			for _, p := range groups[k][1:] {
+				got = append(got, p-60)
+			}
+			if !eqInts(sortedInts(got), want[k]) {
+				return vio("user-chord-tones", "chord %d of the piece, %q, sounds %v above the root; with MajorTriad redefined as 0-4-7-12 it is %v%s", k, seq[k], sortedInts(got), want[k], ctx)
+			}
+		}
 	case "attr-only":
 		// attributes given with --attr alone (no --chord file) are known to the info commands
 		files, args := c.Dict.filesAndArgs()
@@ -724,6 +760,11 @@ func TestC16(t *testing.T) {
 	if shardIndex() == 0 {
 		c := C16Case{Kind: "attrs"}
 		r.CaseBC(true, "builtin-attributes")
+		r.Check(t, checkC16(c), "c16", c)
+	}
+	if shardIndex() == 2 {
+		c := C16Case{Kind: "override-root"}
+		r.CaseBC(true, "major-triad-redefined")
 		r.Check(t, checkC16(c), "c16", c)
 	}
 	r.MarkExhaustive("23 built-in chords by name and display; every built-in attribute; gen attr vs embedded list")
